@@ -26,12 +26,9 @@ Definition obs_req_eq (a b : list N) : list N :=
   | _, _ => asc "E"
   end.
 
-(* r.eqh a b   -> "E" | "?" | two letters: Requirement.__eq__, and equality of what __hash__ hashes (req_key) *)
-Fixpoint rq_lists_eqb (a b : list (list N)) : bool :=
-  match a, b with [], [] => true | x :: a', y :: b' => rq_str_eqb x y && rq_lists_eqb a' b' | _, _ => false end.
-Definition rq_key_eqb (x y : rq_key) : bool :=
-  rq_str_eqb (k_name x) (k_name y) && rq_lists_eqb (k_extras x) (k_extras y) && rq_lists_eqb (k_specs x) (k_specs y)
-  && rq_opt_eqb (k_url x) (k_url y) && rq_opt_eqb (k_marker x) (k_marker y).
+(* r.eqh a b   -> "E" | "?" | two letters: Requirement.__eq__, and equality of what __hash__ hashes (req_key), decided by
+   ReqModel.rq_key_eqb - proved to be equality of keys (ReqExtraP.key_eqb_eq: rq_key_eqb x y = true <-> x = y), hence by
+   C08_eq_is_key the second letter always equals the first in the model *)
 Definition obs_req_eqh (a b : list N) : list N :=
   match Requirement a, Requirement b with
   | RqOk x, RqOk y => show_bool (req_eq x y) ++ show_bool (rq_key_eqb (req_key x) (req_key y))
